@@ -165,7 +165,13 @@ def gen(rng):
         pre.append(marker("pre"))
         cands = [d for d in devices if d["where"] == "pre"]
         if cands and rng.random() < 0.6:
-            pre.append(action(rng.choice(cands)))
+            act = action(rng.choice(cands))
+            if ".animate(" in act and rng.random() < 0.6:
+                # the animation is started from inside a block of the prologue: it is still ticked in every pass
+                wrap = rng.choice(["if count == 0:", "for once in range(1):", "if count > 5:\n    pass\nelse:", "try:"])
+                pre += wrap.split("\n") + ["    " + act] + (["except:", "    pass"] if wrap == "try:" else [])
+            else:
+                pre.append(act)
         if rng.random() < 0.3:
             pre.append(f"sleep({rng.choice([1, 5])})")
     body = []
